@@ -100,7 +100,7 @@ def gen(rng, tier, i):
         host, hclass = ("10.9.%d.%d" % (rng.randint(0, 255), rng.randint(1, 254))).encode(), "ipv4"
         if outb != "direct" and rng.random() < 0.3:
             # IPv4 addresses next to the SOCKS4a marker range 0.0.0.x (x != 0), and other special ones
-            host, hclass = rng.choice([b"0.0.0.0", b"0.0.1.0", b"0.1.0.0", b"1.0.0.0", b"255.255.255.255", b"127.0.0.1", b"0.0.1.1"]), "ipv4-special"
+            host, hclass = rng.choice([b"0.0.0.0", b"0.0.1.0", b"0.1.0.0", b"1.0.0.0", b"255.255.255.255", b"127.0.0.1", b"0.0.1.1", b"0.0.0.5", b"0.0.0.255", b"0.0.0.1"]), "ipv4-special"
     else:
         host, hclass = ("fd09::%x" % rng.randint(1, 65535)).encode(), "ipv6"
         if outb != "direct" and rng.random() < 0.4:
@@ -109,6 +109,8 @@ def gen(rng, tier, i):
             host, hclass = rng.choice([b"::1", b"::", b"::102:304", b"::a09:707", b"::ffff:10.9.7.7", b"64:ff9b::a09:707", b"fe80::1", b"ff02::1", b"::ffff:0:1"]), "ipv6-special"
     while inb == "socks4a" and kind == "domain" and b"\x00" in host:
         host, hclass = hostile_host(rng)
+    if inb == "socks4a" and kind == "ipv4" and host.startswith(b"0.0.0.") and host != b"0.0.0.0":
+        host = b"0.0.1.5"   # 0.0.0.x (x != 0) is the SOCKS4a marker: a SOCKS4 client cannot ask for such an address at all
     if inb == "socks4a" and kind == "ipv6":
         kind, host, hclass = "ipv4", b"10.9.7.7", "ipv4"
     # listener
@@ -358,6 +360,11 @@ def oracle(plan, out):
             except rc.ParseError as e:
                 complete = True
                 injected = "next hop cannot parse the request: %s" % e
+        elif u is not None and u.get("hex") and (u["res"].startswith("timeout") or u["res"].startswith("eof")):
+            # bytes were sent, but they are not a complete SOCKS4/4a request for the reader on the other side
+            # (e.g. an address in the 0.0.0.x marker range with no name behind it): sent truncated or ambiguous
+            complete = True
+            injected = "next hop received a request it cannot complete (%s): %s" % (u["res"], u["hex"][:60])
     else:  # direct: what was resolved / dialled
         names = [e[5] for e in R.events if e[2] == "dns"]
         dials = [e[5].split(">")[1] for e in R.events if e[2] == "tcp_connect" and e[5].startswith("proxy>")]
